@@ -243,3 +243,74 @@ func ZZ_C16_JSON(useNumber, disallow int) {
 		vrt.Reach("c16-json-encoded")
 	}
 }
+
+// zzChain hands what a frame codec delivers to the text codec, whose deliveries end in sink.
+type zzChain struct {
+	zzCtx
+	next netty.InboundHandler
+	sink *zzCtx
+}
+
+func (c *zzChain) HandleRead(message netty.Message) { c.next.HandleRead(c.sink, message) }
+
+// ZZ_C16_TextRetained: two messages through the same codec chain (frame codec underneath, text codec on top);
+// the receiver keeps both strings and looks at them after the second delivery: each is still the byte sequence
+// of its own message. (Go strings are immutable: a received string that changes when later traffic arrives is
+// not "the identical string".)
+//
+//	under: 0 packet codec (one reused read buffer), 1 length-field codec, 2 delimiter codec, 3 varint codec
+func ZZ_C16_TextRetained(under int) {
+	n1 := vrt.Choose(3) + 1
+	n2 := vrt.Choose(3) + 1
+	a := vrt.Bytes(n1)
+	b := vrt.Bytes(n2)
+	txt := TextCodec()
+	var fc netty.CodecHandler
+	switch under {
+	case 0:
+		fc = frame.PacketCodec(8)
+	case 1:
+		fc = frame.LengthFieldCodec(binary.BigEndian, 4096, 0, 2, 0, 2)
+	case 2:
+		fc = frame.DelimiterCodec(4096, "\n", true)
+		for i := 0; i < n1; i++ {
+			vrt.Assume(a[i] != '\n')
+		}
+		for i := 0; i < n2; i++ {
+			vrt.Assume(b[i] != '\n')
+		}
+	default:
+		fc = frame.VarintLengthFieldCodec(4096)
+	}
+	sink := &zzCtx{}
+	chain := &zzChain{next: txt, sink: sink}
+	if under == 0 {
+		// one transport read per packet
+		fc.HandleRead(chain, bytes.NewReader(append([]byte(nil), a...)))
+		fc.HandleRead(chain, bytes.NewReader(append([]byte(nil), b...)))
+	} else {
+		// both frames on one stream
+		fw := &zzCtx{}
+		txt.HandleWrite(fw, string(a))
+		txt.HandleWrite(fw, string(b))
+		ww := &zzCtx{}
+		fc.HandleWrite(ww, fw.out[0])
+		fc.HandleWrite(ww, fw.out[1])
+		var wire []byte
+		wire = append(wire, zzFlat(ww.out[0], n1+8)...)
+		wire = append(wire, zzFlat(ww.out[1], n2+8)...)
+		src := &zzFrag{data: wire, splits: 1}
+		fc.HandleRead(chain, src)
+		fc.HandleRead(chain, src)
+	}
+	vrt.Assert(len(sink.in) == 2, "c16-retained-two-strings-delivered")
+	s1, ok1 := sink.in[0].(string)
+	s2, ok2 := sink.in[1].(string)
+	vrt.Assert(ok1 && ok2, "c16-retained-strings")
+	vrt.Assert(len(s1) == n1 && len(s2) == n2, "c16-retained-lengths")
+	i := vrt.IntIn(0, n1-1)
+	vrt.Assert(s1[i] == a[i], "c16-retained-first-string-unchanged-by-later-traffic")
+	j := vrt.IntIn(0, n2-1)
+	vrt.Assert(s2[j] == b[j], "c16-retained-second-string-content")
+	vrt.Reach("c16-retained-done")
+}
